@@ -768,6 +768,25 @@ pub fn steer(rng: &mut Rng, ins: &Instruction, bytes: &[u8], rip: u64, so: &Stee
             };
         }
         let a_final;
+        // 32-bit addressing under an FS/GS override: the segment base is added AFTER the truncation to 32 bits.
+        // Choose the final target anywhere (also above 4 GiB), a 32-bit offset, and derive the base from them,
+        // so that offset + base crosses the 2^32 boundary in a good share of the trials.
+        let seg32 = addr32 && (seg == Register::FS || seg == Register::GS) && !fixed && rng.below(3) != 0;
+        let mut forced_want: Option<u64> = None;
+        if seg32 {
+            let target = target_addr(rng, class, size, false);
+            let off32 = match rng.below(4) {
+                0 => rng.below(0x1000),
+                1 => 0xffff_ffff - rng.below(0x1000),
+                2 => 0x8000_0000 + rng.below(0x1000),
+                _ => rng.next() & 0xffff_ffff,
+            };
+            let base = target.wrapping_sub(off32);
+            if base < 0x7fff_ffff_f000 {
+                segbase = base;
+                forced_want = Some(off32);
+            }
+        }
         if fixed {
             // address decided by the encoding; only the segment base can move it
             let raw = if addr32 { disp & 0xffff_ffff } else { disp };
@@ -783,7 +802,10 @@ pub fn steer(rng: &mut Rng, ins: &Instruction, bytes: &[u8], rip: u64, so: &Stee
             }
             a_final = raw.wrapping_add(segbase);
         } else {
-            let want_final = target_addr(rng, class, size, addr32 && segbase == 0);
+            let want_final = match forced_want {
+                Some(off) => off.wrapping_add(segbase),
+                None => target_addr(rng, class, size, addr32 && segbase == 0),
+            };
             let mut want = want_final.wrapping_sub(segbase);
             if addr32 {
                 if want > 0xffff_ffff {
